@@ -148,6 +148,21 @@ fn e_cred(id: u8) -> csl::Credential {
 }
 fn e_cert(id: u8) -> csl::Certificate {
     let c = csl::Credential::from_keyhash(&key(id as u16 % 3).hash);
+    if id == 1 || id == 5 {
+        // the same two rewards listed in two orders: the map is insertion ordered, so these are two
+        // different elements (with different bytes)
+        let mut m = csl::MIRToStakeCredentials::new();
+        let (a, b) = (csl::Credential::from_keyhash(&key(7).hash), csl::Credential::from_keyhash(&key(8).hash));
+        let (ra, rb) = (csl::Int::new_i32(10), csl::Int::new_i32(20));
+        if id == 1 {
+            m.insert(&a, &ra);
+            m.insert(&b, &rb);
+        } else {
+            m.insert(&b, &rb);
+            m.insert(&a, &ra);
+        }
+        return csl::Certificate::new_move_instantaneous_rewards_cert(&csl::MoveInstantaneousRewardsCert::new(&csl::MoveInstantaneousReward::new_to_stake_creds(csl::MIRPot::Reserves, &m)));
+    }
     if id == 4 || id == 6 {
         // the one certificate that nests a set (pool owners); the two share their operator and
         // differ in everything else - they are two different elements
